@@ -367,6 +367,57 @@ pub fn c07(run: &mut Run) -> Stats {
         run.extra.push(("code_points_in_templates".into(), J::u(npoints as u64)));
         st = st.merge(s4);
     }
+    // (c3) digit runs in every numeric context: prefix x every string over three digits up to length 10 (11
+    // thorough) x suffix (values beyond 32 and 64 bits, leading zeros)
+    {
+        let hex_ctx: [(&str, &str, &str); 10] = [("\\u{", "0 1 F", "}"), ("[\\u{", "0 1 F", "}]"), ("[\\q{\\u{", "0 1 F", "}}]"), ("(?<\\u{", "0 1 F", "}>x)"), ("\\x", "0 1 F", ""), ("\\u", "0 D F", "\\uDC00"), ("\\k<\\u{", "0 1 F", "}>"), ("\\p{", "0 1 F", "}"), ("\\c", "0 1 F", ""), ("[\\c", "0 1 F", "]")];
+        let dec_ctx: [(&str, &str, &str); 8] = [("a{", "0 1 9", "}"), ("a{1,", "0 4 9", "}"), ("a{", "0 4 9", ",}"), ("(a)\\", "0 1 9", ""), ("\\", "0 1 7", ""), ("[\\", "0 1 7", "]"), ("(?<n", "0 1 9", ">a)\\k<n1>"), ("a{", "1 2 9", ",1}")];
+        let maxlen = if thorough { 11 } else { 10 };
+        let mut jobs: Vec<(String, String, String, Vec<char>)> = Vec::new();
+        for (pre, digits, suf) in hex_ctx.iter().chain(dec_ctx.iter()) {
+            jobs.push((pre.to_string(), suf.to_string(), digits.to_string(), digits.split(' ').map(|d| d.chars().next().unwrap()).collect()));
+        }
+        let known = run.known.clone();
+        let s5 = jobs
+            .par_iter()
+            .fold(Stats::default, |mut st, (pre, suf, _, digits)| {
+                let k = digits.len() as u64;
+                let total: u64 = (0..=maxlen as u32).map(|l| k.pow(l)).sum();
+                for idx in 0..total {
+                    // shortlex decode
+                    let mut rem = idx;
+                    let mut len = 0u32;
+                    while rem >= k.pow(len) {
+                        rem -= k.pow(len);
+                        len += 1;
+                    }
+                    let mut run_digits = vec!['0'; len as usize];
+                    for i in (0..len as usize).rev() {
+                        run_digits[i] = digits[(rem % k) as usize];
+                        rem /= k;
+                    }
+                    let text: String = format!("{}{}{}", pre, run_digits.iter().collect::<String>(), suf);
+                    let pat: Vec<u32> = text.chars().map(|c| c as u32).collect();
+                    for fs in ["", "u", "v", "i"] {
+                        st.add("evaluations", 1);
+                        st.add("validated", 1);
+                        st.add("digit_run_patterns", 1);
+                        match subject::compile(&pat, Flags::parse(fs), false) {
+                            CompileOutcome::Ok(_) => st.add("nontrivial", 1),
+                            CompileOutcome::Err(_) => {}
+                            CompileOutcome::Panic(m) => {
+                                let where_ = m.rsplit(" at ").next().unwrap_or("").to_string();
+                                let case = J::obj().set("kind", J::s("compile")).set("pattern", J::s(&text)).set("pattern_cps", J::cps(&pat)).set("flags", J::s(fs)).set("what", J::s("panic during compilation")).set("got", J::s(&m));
+                                st.violation(&known, "C07", &format!("panic during compilation at {} [digit run after {}]", where_, pre), pat.len(), case);
+                            }
+                        }
+                    }
+                }
+                st
+            })
+            .reduce(Stats::default, Stats::merge);
+        st = st.merge(s5);
+    }
     // size-parameterised shapes, each in a child process
     let sizes: Vec<usize> = if thorough { vec![1, 2, 10, 100, 255, 256, 257, 1000, 10_000, 65_535, 65_536, 100_000, 1_000_000] } else { vec![1, 2, 10, 100, 255, 256, 257, 1000, 10_000, 65_535, 65_536] };
     let mut jobs: Vec<(&str, usize, &str, bool)> = Vec::new();
@@ -440,7 +491,7 @@ pub fn c07(run: &mut Run) -> Stats {
         st.sample(|| t);
     }
     run.rule = format!(
-        "(a) every string over the {}-token alphabet {:?} of length <= {} and every raw code point string over {{0, (, \\, U+D800, U+DFFF, U+10FFFF, a, {{, [, u, }}}} of length <= {} x flag sets {:?}: from_unicode must return Ok or Err (catch_unwind; a watchdog reports any compile > 10 s); (c) every prefix and suffix of every C08 seed pattern, and every prefix followed by each of 15 cut-off construct openings (\\ \\u \\x \\c \\k< \\p{{ \\q{{ (? (?< [ [^ {{ {{1, \\u{{ \\ud83d\\u), x the same flag sets; (c2) every code point of interest (all with a case partner in either mode, encoding-length boundary neighbours, 0..=U+0100, surrogate block ends; thorough: all of 0..=0x10FFFF) substituted into 20 templates (atom, class member, range end, \\q string, set operand, backreference target, quantified, lookbehind, escaped, group name, modifier body, alternation), x the same flag sets x {{optimised, no_opt}}; (b) {} size-parameterised shapes x sizes {:?} x {{\"\",u,v}} x {{main thread, spawned 2 MiB thread}}, each in a child process (8 MiB stack, 6 GiB address space, {} s wall): exit status 0 with Ok/Err; an allocation failure under the 6 GiB cap is a violation for patterns of at most 2^20 code points and a cap beyond; non-trivial = the input compiles",
+        "(a) every string over the {}-token alphabet {:?} of length <= {} and every raw code point string over {{0, (, \\, U+D800, U+DFFF, U+10FFFF, a, {{, [, u, }}}} of length <= {} x flag sets {:?}: from_unicode must return Ok or Err (catch_unwind; a watchdog reports any compile > 10 s); (c) every prefix and suffix of every C08 seed pattern, and every prefix followed by each of 15 cut-off construct openings (\\ \\u \\x \\c \\k< \\p{{ \\q{{ (? (?< [ [^ {{ {{1, \\u{{ \\ud83d\\u), x the same flag sets; (c2) every code point of interest (all with a case partner in either mode, encoding-length boundary neighbours, 0..=U+0100, surrogate block ends; thorough: all of 0..=0x10FFFF) substituted into 20 templates (atom, class member, range end, \\q string, set operand, backreference target, quantified, lookbehind, escaped, group name, modifier body, alternation), x the same flag sets x {{optimised, no_opt}}; (c3) 18 numeric contexts (\\u{{ \\x \\u \\c \\k<\\u{{ \\p{{ in and out of classes, group names, {{n}} {{n,m}} {{n,}}, \\N, octal) x every run over three digits of length <= 10 (11 thorough) x {{\"\",u,v,i}}; (b) {} size-parameterised shapes x sizes {:?} x {{\"\",u,v}} x {{main thread, spawned 2 MiB thread}}, each in a child process (8 MiB stack, 6 GiB address space, {} s wall): exit status 0 with Ok/Err; an allocation failure under the 6 GiB cap is a violation for patterns of at most 2^20 code points and a cap beyond; non-trivial = the input compiles",
         toks.len(),
         TOKENS,
         n_tok,
